@@ -20,7 +20,7 @@ from .paths import switch_target
 PANIC_CALLEE = re.compile(
     r'(^core::option::Option::<T>::(unwrap|expect)$|^core::result::Result::<T, E>::(unwrap|expect|unwrap_err|expect_err)$|'
     r'^core::panicking::|^std::rt::begin_panic|^core::option::(unwrap|expect)_failed|^core::result::unwrap_failed|'
-    r'ops::index::Index<.*>>::index$|ops::index::IndexMut<.*>>::index_mut$|'
+    r'ops::index::Index<.*::index$|ops::index::IndexMut<.*::index_mut$|'
     r'::split_at$|::split_at_mut$|::copy_from_slice$|::clone_from_slice$|'
     r'^alloc::vec::Vec::<T, A>::(remove|insert|swap_remove|drain|split_off)$|'
     r'^alloc::string::String::(remove|insert|insert_str|drain|split_off|truncate|replace_range)$|'
@@ -39,7 +39,8 @@ def short_callee(cn):
     m = re.search(r'ops::index::(Index|IndexMut)<', cn)
     if m:
         recv = re.match(r'^<(.*?) as core::ops::index', cn)
-        return f'{m.group(1)}::index on {recv.group(1) if recv else "?"}'
+        r2 = re.search(r'> for (\S+?)>::index', cn)
+        return f'{m.group(1)}::index on {recv.group(1) if recv else (r2.group(1) if r2 else "?")}'
     return re.sub(r'<.*?>', '', cn).replace('::::', '::')
 
 
@@ -157,6 +158,12 @@ def _normalise_fact(prog, f, cond, val):
     m = re.match(r'^Not\((.*)\)$', cond)
     if m:
         return _normalise_fact(prog, f, m.group(1), 0 if val else 1)
+    m = re.match(r'^(is_ascii|is_char_boundary)\((.*)\)$', cond)
+    if m and _balanced(m.group(2)) and val:
+        return [('True', cond, '')]
+    m = re.match(r'^is_empty\((.*)\)$', cond)
+    if m and _balanced(m.group(1)):
+        return [('Eq', f'len({m.group(1)})', 'const(0)')] if val else [('Ge', f'len({m.group(1)})', 'const(1)')]
     m = re.match(r'^([A-Za-z_0-9]+)\((self|[A-Za-z_0-9.]+)\)$', cond)
     if m:
         # bool helper on self: look into its body
@@ -217,16 +224,139 @@ def auto_discharge(prog, f, site, sym=None):
         args = t['args']
         if len(args) >= 2:
             recv, ix = sym.op(args[0]), sym.op(args[1])
-            if re.match(r'^Range', ix):
-                return None
+            facts = []
             for cond, val in dominating_facts(prog, f, site.block, sym):
-                for (op, x, y) in _normalise_fact(prog, f, cond, val):
-                    if op == 'Lt' and _strip_ovf(x) == _strip_ovf(ix) and _same_len(y, f'len({recv})'):
-                        return f'D1: guarded by dominating test {x} < {y}'
-                    if op == 'Gt' and _strip_ovf(y) == _strip_ovf(ix) and _same_len(x, f'len({recv})'):
-                        return f'D1: guarded by dominating test {x} > {y}'
+                facts += _normalise_fact(prog, f, cond, val)
+            facts += _parent_facts(prog, f, sym)
+            recv = _expand_upvar(prog, f, recv)
+            is_str = site.detail.endswith((' on str', ' on alloc::string::String'))
+            if re.match(r'^Range', ix):
+                if is_str:
+                    return _discharge_str_slice(prog, f, sym, recv, ix, facts)
+                return None
+            c = op_const(args[1])
+            for (op, x, y) in facts:
+                if op == 'Lt' and _strip_ovf(x) == _strip_ovf(ix) and _same_len(y, f'len({recv})'):
+                    return f'D1: guarded by dominating test {x} < {y}'
+                if op == 'Gt' and _strip_ovf(y) == _strip_ovf(ix) and _same_len(x, f'len({recv})'):
+                    return f'D1: guarded by dominating test {x} > {y}'
+                if isinstance(c, int) and _same_len(x, f'len({recv})'):
+                    m = re.match(r'^const\((\d+)\)$', y)
+                    if m:
+                        n = int(m.group(1))
+                        if (op == 'Eq' and c < n) or (op == 'Ge' and c < n) or (op == 'Gt' and c <= n):
+                            return f'D1: constant index {c} with dominating test {x} {op} {n}'
+                if isinstance(c, int) and c == 0 and op == 'Eq' and x == f'is_empty({recv})' and y == 'const(0)':
+                    return 'D1: index 0 of a collection tested non-empty'
+            if isinstance(c, int) and c == 0:
+                for (op, x, y) in facts:
+                    if x == f'is_empty({recv})' and ((op == 'Eq' and y in ('const(0)',)) or op == 'Not'):
+                        return 'D1: index 0 of a collection tested non-empty'
         return None
     return None
+
+
+def _parent_of(prog, f):
+    parent = None
+    for cand in prog.fns.values():
+        if f.path.startswith(cand.path + '::') and not cand.is_closure() and cand.path != f.path:
+            if parent is None or len(cand.path) > len(parent.path):
+                parent = cand
+    return parent
+
+
+def _expand_upvar(prog, f, expr):
+    """in a closure, a captured variable is printed by name: replace it by the parent's expression for that variable"""
+    if not f.is_closure():
+        return expr
+    m = re.match(r'^([A-Za-z_][A-Za-z_0-9]*)$', expr)
+    if not m or m.group(1) not in f.upvars.values():
+        return expr
+    parent = _parent_of(prog, f)
+    if parent is None:
+        return expr
+    for l, n in parent.names.items():
+        if n == m.group(1):
+            return Sym(parent).local(l)
+    return expr
+
+
+def _parent_facts(prog, f, sym):
+    """facts of the enclosing function that dominate the creation of this closure (captured variables keep their names)"""
+    if not f.is_closure():
+        return []
+    parent = None
+    for cand in prog.fns.values():
+        if f.path.startswith(cand.path + '::') and not cand.is_closure() and cand.path != f.path:
+            if parent is None or len(cand.path) > len(parent.path):
+                parent = cand
+    if parent is None:
+        return []
+    out = []
+    for bi, b in enumerate(parent.blocks):
+        for st in b['s']:
+            if 'd' in st and st['v']['r'] == 'agg' and st['v'].get('kind') in ('closure', 'coroutine_closure') and st['v'].get('def') == f.path:
+                ps = Sym(parent)
+                for cond, val in dominating_facts(prog, parent, bi, ps):
+                    out += _normalise_fact(prog, parent, cond, val)
+    return out
+
+
+def _discharge_str_slice(prog, f, sym, recv, ix, facts):
+    """string slicing: bounds must be character boundaries"""
+    bounds = re.findall(r'(?:Range|RangeTo|RangeFrom|RangeInclusive)\((.*)\)$', ix)
+    inner = bounds[0] if bounds else ''
+    parts = _split_args(inner)
+    ok = []
+    for b in parts:
+        b0 = _strip_ovf(b)
+        if re.match(r'^const\(0\)$', b0):
+            ok.append('0'); continue
+        # position returned by find/rfind on the same string (a char boundary), optionally + 1 for a one-byte ASCII pattern
+        m = re.match(r'^\(?(r?find)\((.*?), const\((\d+)\)\)@Some\.0(?: Add const\(1\)\))?$', b0)
+        if m and _same_len(m.group(2), recv) and int(m.group(3)) < 128:
+            ok.append('find'); continue
+        if re.match(r'^len\(' + re.escape(recv) + r'\)$', b0):
+            ok.append('len'); continue
+        ok.append(None)
+    if parts and all(ok):
+        return 'D5: slice bounds are 0 / len / positions returned by find() of a one-byte pattern on the same string (character boundaries)'
+    # constant byte offsets are safe only on ASCII text
+    root = re.sub(r'^(?:index\()+', '', recv).split(',')[0]
+    for (op, x, y) in facts:
+        if op == 'True' and x in (f'is_ascii({recv})', f'is_ascii({root})'):
+            return 'D6: byte offsets on a string tested is_ascii()'
+    return None
+
+
+def _split_args(e):
+    out = []; depth = 0; cur = ''
+    i = 0
+    while i < len(e):
+        c = e[i]
+        if c == '(':
+            depth += 1
+        elif c == ')':
+            depth -= 1
+        if c == ',' and depth == 0 and e[i:i + 2] == ', ':
+            out.append(cur); cur = ''; i += 2
+            continue
+        cur += c; i += 1
+    if cur:
+        out.append(cur)
+    return out
+
+
+def _balanced(e):
+    d = 0
+    for c in e:
+        if c == '(':
+            d += 1
+        elif c == ')':
+            d -= 1
+            if d < 0:
+                return False
+    return d == 0
 
 
 def _strip_ovf(e):
